@@ -44,6 +44,13 @@ type sinkState struct {
 	scalar  map[types.Object]scalarVal    // integer locals: what they hold
 	depth   int
 	bound   map[types.Object]*ast.SelectorExpr // locals holding a method value of a tracked sink (`put := w.Write`)
+	views   map[types.Object]arrView           // slice locals that are a window of a tracked byte array (`v := footer[:2]`)
+}
+
+// arrView is the window [lo, hi) of a tracked byte array.
+type arrView struct {
+	arr    types.Object
+	lo, hi int64
 }
 
 // scalarVal is what an integer-valued expression stands for.
@@ -237,6 +244,13 @@ func (s *sinkState) seqTokens(x ast.Expr) []string {
 		if s.vParam[o] {
 			return []string{"Bytes"}
 		}
+		if w, ok := s.views[o]; ok { // a window of a tracked array
+			if toks := s.arrTokens(w.arr, w.lo, w.hi); toks != nil {
+				return toks
+			}
+			s.und("`%s` (bytes %d..%d of an array) is not tiled exactly by values stored with PutUintN", s.c.Src(v), w.lo, w.hi)
+			return nil
+		}
 		if c, ok := s.content[o]; ok && !s.isDig[o] {
 			return append([]string{}, c...)
 		}
@@ -250,6 +264,18 @@ func (s *sinkState) seqTokens(x ast.Expr) []string {
 		}
 		if tv, has := s.info.Types[v.Fun]; has && tv.IsType() && len(v.Args) == 1 {
 			return s.seqTokens(v.Args[0])
+		}
+		if sel, ok := ast.Unparen(v.Fun).(*ast.SelectorExpr); ok && len(v.Args) == 2 {
+			// binary.<order>.AppendUintN(dst, v): dst followed by the value in N/8 bytes
+			if width := map[string]int{"AppendUint16": 16, "AppendUint32": 32, "AppendUint64": 64}[sel.Sel.Name]; width != 0 {
+				if f := core.CalleeFunc(s.info, v); f != nil && f.Pkg() != nil && f.Pkg().Path() == "encoding/binary" {
+					var out []string
+					if !core.IsNil(s.info, v.Args[0]) {
+						out = s.seqTokens(v.Args[0])
+					}
+					return append(out, s.fixed(v.Args[1], width, orderOf(s.info, sel.X)))
+				}
+			}
 		}
 		if sel, ok := ast.Unparen(v.Fun).(*ast.SelectorExpr); ok && sel.Sel.Name == "Sum" && len(v.Args) == 1 {
 			// hash.Hash.Sum(b): b followed by the current checksum, the state is left as it is
@@ -286,18 +312,7 @@ func (s *sinkState) seqTokens(x ast.Expr) []string {
 				hi, ok = core.IntConst(s.info, v.High)
 			}
 			if ok {
-				// the values stored by PutUintN that tile [lo, hi) exactly, in order
-				spans := append([]span{}, s.arrays[o]...)
-				sort.Slice(spans, func(i, j int) bool { return spans[i].lo < spans[j].lo })
-				var toks []string
-				at := lo
-				for _, sp := range spans {
-					if sp.lo == at && sp.hi <= hi {
-						toks = append(toks, sp.tok)
-						at = sp.hi
-					}
-				}
-				if at == hi && len(toks) > 0 {
+				if toks := s.arrTokens(o, lo, hi); toks != nil {
 					return toks
 				}
 			}
@@ -309,6 +324,24 @@ func (s *sinkState) seqTokens(x ast.Expr) []string {
 		}
 	}
 	s.und("cannot name the bytes of `%s`", s.c.Src(x))
+	return nil
+}
+
+// arrTokens: the values stored by PutUintN that tile [lo, hi) of the array exactly, in order.
+func (s *sinkState) arrTokens(o types.Object, lo, hi int64) []string {
+	spans := append([]span{}, s.arrays[o]...)
+	sort.Slice(spans, func(i, j int) bool { return spans[i].lo < spans[j].lo })
+	var toks []string
+	at := lo
+	for _, sp := range spans {
+		if sp.lo == at && sp.hi <= hi {
+			toks = append(toks, sp.tok)
+			at = sp.hi
+		}
+	}
+	if at == hi && len(toks) > 0 {
+		return toks
+	}
 	return nil
 }
 
@@ -368,6 +401,29 @@ func (s *sinkState) define(lhs *ast.Ident, typ types.Type, rhs ast.Expr) {
 	}
 	rhs = ast.Unparen(rhs)
 	t := s.info.TypeOf(rhs)
+	if se, ok := rhs.(*ast.SliceExpr); ok && se.Max == nil {
+		if ao := s.obj(se.X); ao != nil {
+			if n, isArr := s.arrLen[ao]; isArr {
+				lo, hi := int64(0), n
+				okB := true
+				if se.Low != nil {
+					lo, okB = core.IntConst(s.info, se.Low)
+				}
+				if okB && se.High != nil {
+					hi, okB = core.IntConst(s.info, se.High)
+				}
+				if _, again := s.views[o]; okB && !again && 0 <= lo && lo <= hi && hi <= n {
+					if s.views == nil {
+						s.views = map[types.Object]arrView{}
+					}
+					s.views[o] = arrView{ao, lo, hi}
+					return
+				}
+				s.und("`%s` is not a constant window of the byte array, or the slice variable is re-bound", s.c.Src(rhs))
+				return
+			}
+		}
+	}
 	if sel, ok := rhs.(*ast.SelectorExpr); ok && t != nil {
 		if _, isFunc := t.Underlying().(*types.Signature); isFunc && s.targets(sel.X) != nil {
 			if s.bound == nil {
@@ -460,6 +516,9 @@ func (s *sinkState) noSinkUse(n ast.Node) {
 			if _, aliased := s.alias[o]; aliased {
 				tracked = true
 			}
+			if _, isView := s.views[o]; isView {
+				tracked = true
+			}
 			if tracked {
 				// len(x), cap(x) are harmless
 				s.und("tracked sink %s is used in `%s`, outside the enumerated write forms", id.Name, s.c.Src(n))
@@ -512,6 +571,13 @@ func (s *sinkState) call(call *ast.CallExpr) {
 				switch d := dst.(type) {
 				case *ast.Ident:
 					o = core.ObjOf(info, d)
+					if w, isView := s.views[o]; isView {
+						o, lo = w.arr, w.lo
+						if w.lo+int64(map[string]int{"PutUint16": 2, "PutUint32": 4, "PutUint64": 8}[sel.Sel.Name]) > w.hi {
+							s.und("`%s` stores beyond the window of the array", s.c.Src(call))
+							return
+						}
+					}
 				case *ast.SliceExpr:
 					o = s.obj(d.X)
 					if d.Low != nil {
